@@ -360,7 +360,7 @@ thread_local! {
 
 /// A `Deserialize` type for APIs that take `T: Deserialize` rather than a seed: captures through the context
 /// installed in `CAPTURE_CTX` for the duration of the call.
-struct Captured(J);
+pub(crate) struct Captured(pub J);
 impl<'de> serde::Deserialize<'de> for Captured {
 	fn deserialize<D: serde::Deserializer<'de>>(d: D) -> Result<Self, D::Error> {
 		let ptr = CAPTURE_CTX.with(|c| *c.borrow()).expect("capture context not installed");
@@ -370,7 +370,7 @@ impl<'de> serde::Deserialize<'de> for Captured {
 	}
 }
 
-fn with_capture_ctx<T>(ctx: &Ctx<'_>, f: impl FnOnce() -> T) -> T {
+pub(crate) fn with_capture_ctx<T>(ctx: &Ctx<'_>, f: impl FnOnce() -> T) -> T {
 	CAPTURE_CTX.with(|c| *c.borrow_mut() = Some(ctx as *const Ctx<'_> as *const Ctx<'static>));
 	let r = f();
 	CAPTURE_CTX.with(|c| *c.borrow_mut() = None);
@@ -415,7 +415,7 @@ fn op_so_de(session: &mut Session, cmd: &J) -> Result<J, String> {
 }
 
 /// same, for `DeserializeOwned` bounds
-struct CapturedOwned(J);
+pub(crate) struct CapturedOwned(pub J);
 impl<'de> serde::Deserialize<'de> for CapturedOwned {
 	fn deserialize<D: serde::Deserializer<'de>>(d: D) -> Result<Self, D::Error> {
 		Captured::deserialize(d).map(|c| CapturedOwned(c.0))
